@@ -83,11 +83,15 @@ pub fn epilogue<T: Payload + 'static>(cx: &mut Ctx<T>, ntags: u8) {
     }
     cx.teardown();
     assert!(cx.bits_ok, "C04: a received value differs from the value sent / was never sent");
+    if T::DROPPY && !T::TAGGED {
+        // zero-sized droppable payload: as many drops as constructions, no more, no less
+        assert!(drops(0) == unsafe { ZD_MADE }, "C01/C05: a zero-sized droppable value was duplicated or leaked");
+    }
     let mut t = 1u8;
     while t <= ntags {
         if cx.offered[t as usize] > 0 {
             assert!(cx.got[t as usize] <= 1, "C01: value delivered twice");
-            if T::DROPPY {
+            if T::DROPPY && T::TAGGED {
                 assert!(drops(t) >= 1, "C05: value leaked (never dropped)");
                 assert!(drops(t) <= 1, "C05: value dropped twice");
             }
@@ -211,8 +215,8 @@ pub fn blocked<T: Payload + 'static>(
             );
         } else {
             // failure / timeout: nobody has or will ever have the value; sender side dropped it once
-            assert!(cx.got[1] == 0, "C01: failed send delivered its value");
-            if T::DROPPY {
+            assert!(!T::TAGGED || cx.got[1] == 0, "C01: failed send delivered its value");
+            if T::DROPPY && T::TAGGED {
                 assert!(drops(1) == 1, "C05: failed/timed-out send did not drop (or dropped twice) its value");
             }
             if outer_k == A_SEND_OPT_TIMEOUT {
@@ -223,7 +227,7 @@ pub fn blocked<T: Payload + 'static>(
             assert!(cx.opt_back == 0, "C05: option variant reported success but handed the value back");
         }
     }
-    if pc == CLOSER && fired && p.code == R_OK && T::DROPPY && prefilled {
+    if pc == CLOSER && fired && p.code == R_OK && T::DROPPY && T::TAGGED && prefilled {
         assert!(drops(3) == 1, "C10: buffered value not destroyed by the time close returned");
     }
     kani::cover!(fired && r.code == R_OK, "completed by peer");
@@ -333,7 +337,7 @@ pub fn async_waiter<T: Payload + 'static>(cap: usize, send_side: bool, peer_k: u
         }
     } else if killed {
         assert!(is_err(r.code), "C10/C11: pending future not released with an error by close/disconnect");
-        if send_side && T::DROPPY {
+        if send_side && T::DROPPY && T::TAGGED {
             assert!(drops(1) == 1, "C05: failed send future did not drop its value exactly once");
         }
     } else {
@@ -341,7 +345,7 @@ pub fn async_waiter<T: Payload + 'static>(cap: usize, send_side: bool, peer_k: u
     }
     kani::cover!(r.code == R_OK, "future completed");
     kani::cover!(is_err(r.code), "future released with error");
-    if pc == CLOSER && p.code == R_OK && T::DROPPY && prefilled {
+    if pc == CLOSER && p.code == R_OK && T::DROPPY && T::TAGGED && prefilled {
         assert!(drops(3) == 1, "C10: buffered value not destroyed by the time close returned");
     }
     cx.sf[0] = None;
@@ -497,6 +501,9 @@ pub fn split<T: Payload + 'static>(cap: usize, outer_k: u8, s1: u16, s2: u16, fi
         assert!(is_err(r.code), "C10/C11: terminated waiter did not report an error");
         if outer_sends && T::DROPPY {
             assert!(drops(1) == 1, "C05: terminated send did not drop its value exactly once");
+        }
+        if outer_k == A_SEND_OPT_TIMEOUT {
+            assert!(cx.opt_back != 0, "C05/C13: option variant reported failure but did not hand the value back");
         }
     } else if outer_sends {
         assert!(r.code == R_OK, "C13/C06: send claimed by a receiver did not report success");
@@ -870,8 +877,11 @@ pub fn ptr_unit<T: Payload + 'static>() {
     let r = if big { unsafe { ret.assume_init() } } else { unsafe { p.read() } };
     assert!(same_bits(&r.bits(), &b), "C04: copied value differs when read back");
     drop(r);
-    if T::DROPPY {
+    if T::DROPPY && T::TAGGED {
         assert!(drops(1) == 1 && drops(2) == 1 && drops(4) == 1, "C05: encoding round trip duplicated or lost a value");
+    }
+    if T::DROPPY && !T::TAGGED {
+        assert!(drops(0) == unsafe { ZD_MADE }, "C01/C05: encoding round trip duplicated or lost a zero-sized droppable value");
     }
 }
 
